@@ -349,6 +349,8 @@ def run(ck, F):
         'oversize boundaries).  The reserved-word table is read from its initialiser.')
     ck.assume('std::hash / std::map / std::find_if / std::lower_bound / std::copy behave as specified')
     one_pool(ck, F, 'C03')
+    import words as _words_w
+    _words_w.word_passed_whole(ck, F, 'C03')
     S = Sym(F, opaque=lambda fid: F.fn.get(fid) is None or F.fn[fid]['name'] in ('word_if_known', 'make_string'), max_depth=40)
     f = F.intern_fn()
     try:
